@@ -65,6 +65,15 @@ pub uninterp spec fn str_lower(s: Seq<char>) -> Seq<char>;
 pub uninterp spec fn str_upper(s: Seq<char>) -> Seq<char>;
 pub uninterp spec fn str_ascii_lower(s: Seq<char>) -> Seq<char>;
 pub uninterp spec fn str_ascii_upper(s: Seq<char>) -> Seq<char>;
+// u64::to_le_bytes has a const-expression array length in its signature (no assume_specification possible): R-lebytes calls this wrapper
+#[verifier::external_body]
+pub fn u64_to_le_bytes(x: u64) -> (r: [u8; 8])
+    ensures forall|i: int| 0 <= i < 8 ==> r@[i] == #[trigger] (((x >> ((8 * i) as u64)) & 0xff) as u8)
+{ x.to_le_bytes() }
+pub assume_specification<T: Default> [core::mem::take::<T>] (dest: &mut T) -> (r: T) ensures r == *old(dest);
+pub assume_specification<T> [core::mem::replace::<T>] (dest: &mut T, src: T) -> (r: T) ensures r == *old(dest), *final(dest) == src;
+pub uninterp spec fn str_eq_ignore_ascii_case(a: Seq<char>, b: Seq<char>) -> bool;
+pub assume_specification [str::eq_ignore_ascii_case] (a: &str, b: &str) -> (r: bool) ensures r == str_eq_ignore_ascii_case(a@, b@), a@ == b@ ==> r;
 pub assume_specification [String::as_bytes] (s: &String) -> (r: &[u8]) ensures r@ == vstd::utf8::encode_utf8(s@);
 pub assume_specification [str::trim] (s: &str) -> (r: &str) ensures r@ == str_trim(s@), r@.len() <= s@.len();
 pub assume_specification [str::trim_start] (s: &str) -> (r: &str) ensures r@ == str_trim_start(s@), r@.len() <= s@.len();
